@@ -14,7 +14,9 @@ for d in sorted(glob.glob('/verif/seeded/*-*')):
     if not det: missed.append(os.path.basename(d))
     summ=(m.get('summary') or '').replace('\n',' ').replace('|','/')
     summ=re.sub(r'/tmp/seed-[A-Z0-9-]+/','',summ)[:170]
-    rows.append(f"| {os.path.basename(d)} | {summ} | {'yes' if m.get('confirmed') else ('no' if 'confirmed' in m else 'pending')} | {('`'+clause+'` after '+runs+' runs') if det else '**missed**'} |")
+    other=m.get('detected_by_other_check')
+    cell=('`'+clause+'` after '+runs+' runs') if det else (('**not by its own check**; '+other) if other else '**missed**')
+    rows.append(f"| {os.path.basename(d)} | {summ} | {'yes' if m.get('confirmed') else ('no' if 'confirmed' in m else 'pending')} | {cell} |")
 text=f"""### 12.6 Seeded changes (realistic breakage planted by blind sub-agents)
 
 Each change was written by a fresh sub-agent that saw only the property text and
@@ -28,10 +30,11 @@ property's **quick** check against /repo HEAD + the change in a scratch copy.
 Everything is kept under `/verif/seeded/<id>-<n>/` (patch.diff, demo.diff,
 meta.json with what it needs to manifest and what was run, check.log,
 confirm.log). Round 2 (`-2`) agents were told the round-1 idea and had to use a
-different mechanism.
+different mechanism (C16-2, C18-2, C35-2 were added in a later, short session under a
+12-minute limit per agent).
 
 Totals: {len(rows)} changes, {caught} detected by the quick check of their
-property, {conf} re-confirmed by the coordinator so far{(', not detected: ' + ', '.join(missed)) if missed else ''}.
+property, {conf} re-confirmed by the coordinator so far{(', not detected by the check of their own property: ' + ', '.join(missed) + ' (C16-2 is detected by the check of C17, see below)') if missed else ''}.
 
 Changes that were first missed and what was strengthened (each is detected now
 unless listed as not detected above):
@@ -63,6 +66,19 @@ unless listed as not detected above):
   ordering variant needs preemption inside one poll, which the multiplexer does not
   explore (§10). W2 gained a common-mode server jump fault, a PPS scenario, observe()
   at poll time and source-side panic capture on the way.
+
+* C16-2 (cookie size guard loosened by 4 bytes; round 3, session 2): **not detected by
+  C16's check, detected by C17's check** after about 1400 runs (`c17-answer-needs-more-than-
+  request-sized-buffer`, cause=other, "with a 4096-byte buffer the server answers Time in
+  388 bytes, with the daemon's request-sized buffer the client saw Nothing"). C16 is
+  stated at the daemon's request-sized buffer (its `observe_at`), and there the loosened
+  guard cannot lengthen a sent datagram: `ServerTask::serve` hands `Server::handle` a
+  buffer clamped to the request length, so the over-long answer fails to serialise and is
+  dropped — which is exactly what C17 forbids. The author's demonstration calls
+  `Server::handle` with a larger buffer (library level). The C16 oracle was left as it is:
+  flagging the 4096-byte-buffer answer under C16 would also flag the unchanged tree for
+  the short-unique-identifier defect that is already a C17 known finding, at an
+  observation point the property does not name.
 
 | seed | change (abridged from the author's summary) | confirmed | quick check of its property |
 |------|---------------------------------------------|-----------|------------------------------|
